@@ -7,4 +7,7 @@ func SeedRuntime(seed uint64) {}
 
 func fastGoid() int64 { return slowGoid() }
 
+// LargestAlloc is not available without the runtime overlay.
+func LargestAlloc() uint64 { return 0 }
+
 const RuntimeSeeded = false
